@@ -23,12 +23,14 @@ var filetypes = []filetype{
 	{[]string{"known_hosts"}, nil, nil, SSHKnownHosts},
 	{nil, []string{"ssh-dss", "ssh-rsa", "ecdsa-sha2-", "ssh-ed25519", "ssh-ed448"}, nil, SSHPublicKey},
 	{nil, nil, IsUUID, UUIDValue},
+	// a JWT is text; it must be tried before the ASN.1 sniffer, which accepts any text whose
+	// first two characters happen to be a tag and the length of the rest ("ey" + 121 bytes)
+	{nil, nil, IsJWT, JWTData},
 	// Base64 text that decodes to an ASN.1 value comes before binary ASN.1: such text can
 	// itself be read as one BER value (e.g. 70 characters starting with "MD"), and
 	// ASN1File accepts anything.
 	{nil, nil, IsBase64ASN1, Base64ASN1File},
 	{nil, nil, IsASN1, ASN1File},
-	{nil, nil, IsJWT, JWTData},
 	{nil, nil, IsMixedPEM, PEMFile},
 }
 
